@@ -8,6 +8,7 @@ CONSTANTS
   MVals = {}
   OVals = {}
   WithDelSpace = FALSE
+  WithChild = FALSE
   OpenFindings = {}
   MaxOps = 0
   Dump = FALSE
